@@ -118,7 +118,8 @@ Section Keeper.
         a = gmp_address H (fst (fst t)) (snd (fst t)) (snd t))) /\
     (g_rest g1 = g_rest g \/ g_rest g1 = ensure_account a (g_rest g)).
   Proof.
-    unfold get_or_create. destruct (acc_get (g_accounts g) t) as [a0|] eqn:E.
+    unfold get_or_create. destruct (has_nul _ || has_nul _); [discriminate|].
+    destruct (acc_get (g_accounts g) t) as [a0|] eqn:E.
     - intros [= <- <-]. repeat split; auto.
     - destruct t as [[c s] x]. destruct (build_address H c s x) as [a0|] eqn:B; [|discriminate].
       intros [= <- <-]. cbn [g_accounts g_rest acc_get fst snd]. rewrite triple_eqb_refl. repeat split; auto.
